@@ -112,9 +112,10 @@ class Field:
     """shape in bool counter plain opt optopt vec optvec vecvec optvecvec; kind in long short pos;
     T in u8 i64 str bool or a VEnum."""
 
-    def __init__(self, name, shape, kind, T, default=None, required=None, num=None, delim=None, icase=False):
+    def __init__(self, name, shape, kind, T, default=None, required=None, num=None, delim=None, icase=False, raw=None):
         self.name, self.shape, self.kind, self.T = name, shape, kind, T
         self.default, self.required, self.num, self.delim, self.icase = default, required, num, delim, icase
+        self.raw = raw or []        # attributes outside the derive model's language: implementation-only types (XTOPS)
         if shape == "bool":
             self.T = "bool"
         if shape == "counter":
@@ -163,9 +164,7 @@ class Field:
             a.append("value_delimiter = '%s'" % self.delim)
         if self.icase:
             a.append("ignore_case = true")
-        if self.kind == "pos" and self.T == "i64":
-            pass
-        return a
+        return a + list(self.raw)
 
     def rust(self):
         a = self.attrs()
@@ -455,11 +454,47 @@ def build():
     top("S1", [Field("verbose", "bool", "long", None), Sub("cmd", sub1)])
     top("S2", [Sub("cmd", sub1, opt=True), Field("level", "counter", "short", None),
                Field("name", "opt", "long", "str")])
-    return structs, subenums, tops
+    # ---- implementation-only types: attributes the derive MODEL does not cover (conditional defaults, typed defaults,
+    # relations).  They take part in the stream `dparse-attrs` only (direct oracle on the real macro's output:
+    # try_parse_from succeeds exactly when the generated command parses, and gives the same value).
+    xtops = []
+
+    def xtop(name, nodes):
+        st = Struct(name, nodes, parser=True)
+        structs.append(st)
+        xtops.append(st)
+        return st
+
+    xtop("XCondDefault", [Field("release", "bool", "long", None),
+                          Field("profile", "plain", "long", "str",
+                                raw=['default_value_if("release", "true", "optimized")'])])
+    xtop("XCondDefaults", [Field("mode", "opt", "long", "str"),
+                           Field("level", "plain", "long", "u8",
+                                 raw=['default_value_ifs([("mode", "fast", "1"), ("mode", "slow", "9")])'])])
+    xtop("XCondWithDefault", [Field("mode", "opt", "long", "str"),
+                              Field("level", "plain", "long", "u8", default="5",
+                                    raw=['default_value_if("mode", "fast", "1")'])])
+    xtop("XTypedDefaults", [Field("alpha", "plain", "long", "u8", raw=["default_value_t = 5"]),
+                            Field("bravo_x", "vec", "long", "u8", raw=["default_values_t = [1u8, 2u8]"]),
+                            Field("carol", "plain", "pos", "str", raw=['default_value_t = String::from("dflt")'])])
+    xtop("XDefaultValues", [Field("alpha", "vec", "long", "str", raw=['default_values = ["a", "b"]']),
+                            Field("bravo_x", "opt", "long", "u8")])
+    xtop("XRelations", [Field("alpha", "opt", "long", "u8", raw=['requires = "bravo_x"']),
+                        Field("bravo_x", "opt", "long", "str"),
+                        Field("carol", "plain", "long", "u8", raw=['required_unless_present = "delta_y"']),
+                        Field("delta_y", "bool", "long", None, raw=['conflicts_with = "alpha"'])])
+    xtop("XMissing", [Field("alpha", "optopt", "long", "u8", raw=['default_missing_value = "7"']),
+                      Field("bravo_x", "opt", "long", "str", raw=["num_args = 0..=1", 'default_missing_value = "dm"'])])
+    xtop("XRange", [Field("alpha", "plain", "long", "u8", raw=["value_parser = clap::value_parser!(u8).range(1..=9)"]),
+                    Field("bravo_x", "vec", "pos", "i64", raw=["allow_negative_numbers = true"])])
+    xtop("XRequiredIf", [Field("mode", "opt", "long", "str"),
+                         Field("token", "opt", "long", "str", raw=['required_if_eq("mode", "remote")']),
+                         Field("verbose", "counter", "short", None)])
+    return structs, subenums, tops, xtops
 
 
-STRUCTS, SUBENUMS, TOPS = build()
-BY_NAME = {s.name: s for s in TOPS}
+STRUCTS, SUBENUMS, TOPS, XTOPS = build()
+BY_NAME = {s.name: s for s in TOPS + XTOPS}
 
 
 def render_rust():
@@ -477,7 +512,7 @@ def render_rust():
         out += [e.rust(), ""]
     out.append("pub fn corpus() -> Vec<(&'static str, Box<dyn Ops>)> {")
     out.append("    vec![")
-    for s in TOPS:
+    for s in TOPS + XTOPS:
         out.append('        ("%s", Box::new(TypeOps::<%s>(PhantomData)) as Box<dyn Ops>),' % (s.name, s.name))
     out.append("    ]")
     out.append("}")
